@@ -1632,12 +1632,18 @@ def check_label_case(run, c, k, impl_lines, scratch, model):
     for nm in c["names"]:
         cols += [("", nm, 21), ("v_", nm, 21), ("fa_", nm, 21)]
     cols += [("E_", c["bname"], 21), ("x0_", c["names"][0], 21)]
-    rc, mout, err = V.run_lines(model, ["LABEL %d %s %s" % (w, p or "-", n) for p, n, w in cols])
-    if rc != 0 or len(mout) != len(cols):
+    # the model's own label line for this configuration (prefixes and widths from the Coq table col_label)
+    cfgv = [{"id": i, "type": "z", "value": True, "velocity": True, "aforce": True} for i in range(len(c["names"]))]
+    cfgb = [{"id": 0, "kind": "harmonic", "vars": [0], "energy": True, "centers": True}]
+    line = " ".join(["TRAJN", str(len(c["names"]))] + ["%d %s" % (i, n) for i, n in enumerate(c["names"])] + ["1", "0", c["bname"], "1"]
+                    + enc_cfg(cfgv, cfgb) + ["1", "C", "0"])
+    rc, mout, err = V.run_lines(model, [line])
+    if rc != 0 or len(mout) != 1:
         run.mismatch("label-model", c, err[-300:], mout[:3])
         return 0
-    if lab != mout:
-        run.mismatch("labeltext", c, lab, mout)
+    mlab = mout[0].split(" ; ")[0].split()[1:]
+    if lab != mlab:
+        run.mismatch("labeltext", c, lab, mlab)
     # oracle: a reader must be able to tell which column is which
     run.dist("oracle:label-text")
     full = [p + n for p, n, w in cols]
